@@ -1428,11 +1428,20 @@ func (f *Frame) resolveCapturedClosure(v ssa.Value) (*ssa.Function, []Val, bool)
 func (f *Frame) checkAtCall(instr ssa.Instruction, c *ssa.CallCommon, st *State) {
 	g := f.g
 	ct := f.contract
+	inlined := false
+	if !f.isTop && g.topC != nil && (ct == nil || ct.Inline) {
+		// a call site inside a callee that is verified inlined: the `reachable` clauses of the function under
+		// verification apply there too (assertions - `requires` - stay with the function's own call sites)
+		ct, inlined = g.topC, true
+	}
 	if ct == nil || len(ct.AtCall) == 0 {
 		return
 	}
 	src := f.text(instr.Pos())
 	for _, ac := range ct.AtCall {
+		if inlined && !ac.Reach {
+			continue
+		}
 		if strings.HasPrefix(ac.Match, "^") {
 			// anchored: the call's own text starts with the pattern (an enclosing call does not match)
 			if !strings.HasPrefix(strings.TrimSpace(src), ac.Match[1:]) {
@@ -1468,8 +1477,23 @@ func (f *Frame) checkAtCall(instr ssa.Instruction, c *ssa.CallCommon, st *State)
 			g.specError(ct, ac.Clause, err)
 			continue
 		}
+		if ac.Reach {
+			// must-reach: the call site can be reached with the expression true (checked like the vacuity covers:
+			// the query has to be SAT; UNSAT means no execution of this function gets there in that situation)
+			name := fmt.Sprintf("%s#reach[%d]{%s :: %s}", g.ctx.funcKey(f.fn), len(g.pendingReach)+1, oneLine(src), ac.Clause.Text)
+			g.pendingReach = append(g.pendingReach, &Obligation{Name: name, Kind: "cover", Fn: g.ctx.funcKey(f.fn), Cond: tAnd(st.cond, t), Goal: boolLit(false), PreludeLen: len(g.lines)})
+			continue
+		}
 		g.oblige(st, "at-call", instr.Pos(), src+" :: "+ac.Clause.Text, t)
 	}
+}
+
+func oneLine(s string) string {
+	s = strings.Join(strings.Fields(s), " ")
+	if len(s) > 80 {
+		s = s[:80] + "..."
+	}
+	return s
 }
 
 // varBefore: value of a source variable just before instruction idx of block blk.
